@@ -134,6 +134,9 @@ pub struct LineIo {
     /// the host loads a file by itself (not in answer to a LOAD statement) once the line has executed
     /// this many instructions: (instruction count, file name, run it)
     pub host_load: Option<(u64, String, bool)>,
+    /// the host loads a file by itself right after the k-th List event of this line, i.e. while the
+    /// runtime is in the middle of a listing: (k, file name)
+    pub host_load_after_list: Option<(usize, String)>,
     /// upper bound on execute() calls for this line (0 = derived from max_instr); for lines whose
     /// work is not counted in instructions (LIST)
     pub max_slices: u64,
@@ -148,6 +151,7 @@ impl Default for LineIo {
             max_instr: 200_000,
             cycle_replies: false,
             host_load: None,
+            host_load_after_list: None,
             max_slices: 0,
         }
     }
@@ -789,6 +793,13 @@ impl World {
                         self.interrupt();
                         out.intr_fired += 1;
                         since_intr = Some(0);
+                    }
+                    if let Some((k, name)) = &io.host_load_after_list {
+                        if *k == lists_seen {
+                            self.stats.bump("fault.host_load_during_list");
+                            self.events.push(Ev::Load(format!("(host) {}", name)));
+                            self.service_load(name, false);
+                        }
                     }
                     lists_seen += 1;
                 }
